@@ -27,8 +27,17 @@ Proof. exact Paged.c16_behind_entries_only. Qed.
 Theorem c16_final_keeps_other_controls : forall r : result, (forall c1 c2 : ctl, In c1 (ctrls r) -> In c2 (ctrls r) -> is_paged c1 = true -> is_paged c2 = true -> c1 = c2) -> NoDup (ctrls r) -> ctrls (final_of r) = others (ctrls r) /\ rc (final_of r) = rc r.
 Proof. exact Paged.c16_final_keeps_other_controls. Qed.
 
+Theorem c16_entries_only_inside : forall (fx : pfix) (params : nat) (user_ctrls : list ctl) (size : N) (p : page) (rest : list page) (s0 : stream),
+  start params user_ctrls size (map inner_eo (p :: rest)) = Some s0 -> wf_script (p_result p) rest ->
+  exists s' : stream, drain fx (S (length (flat_map p_items (map inner_eo (p :: rest))) + length (map inner_eo (p :: rest)))) s0 = (map Entry (entries_of (flat_map p_items (p :: rest))), s') /\
+    st s' = Done /\ res s' = Some (final_of (last_result (p_result p) rest)) /\
+    wire s' = mkReq params (user_ctrls ++ [CPaged size []]) :: followups params user_ctrls size (p_result p) rest /\
+    flat_map (fun q : page => refs_of (p_items q)) (p :: rest) = refs_of (flat_map p_items (p :: rest)).
+Proof. exact Paged.c16_entries_only_inside. Qed.
+
 Print Assumptions c16.
 Print Assumptions c16_rejects_caller_paging_control.
 Print Assumptions c16_final_has_no_paging.
 Print Assumptions c16_behind_entries_only.
 Print Assumptions c16_final_keeps_other_controls.
+Print Assumptions c16_entries_only_inside.
